@@ -52,6 +52,7 @@ def run(ctx):
     ctx.rule("rekey-not-overridden", "no local Cipher impl overrides rekey")
     ctx.rule("rekey-write-set", "rekey functions write only the cipher object (nonce untouched)")
     ctx.rule("role-index", "direction mapping of the rekey API equals the role table")
+    ctx.rule("rekey-unconditional", "rekey_outgoing / rekey_incoming rekey on every path")
     ctx.rule("manual-key-passthrough", "manual keys reach Cipher::set unchanged; rekey_manually(Some, Some) sets both")
     ctx.trust("rustc MIR; snowfacts; /verif/spec/roles.py")
     for cfg in ctx.cfgs:
@@ -156,6 +157,54 @@ def run(ctx):
         n = roles.check_transport_roles(ctx, cfg, ops_filter={"rekey_outgoing", "rekey_incoming", "rekey_initiator_manually", "rekey_responder_manually"})
         ctx.floor("role-index", n, 12, cfg)
         manual(ctx, cfg)
+        always_rekeys(ctx, cfg)
+
+
+def always_rekeys(ctx, cfg):
+    """rekey_outgoing / rekey_incoming are unconditional: no path returns without having rekeyed a cipher state (the
+    application is told to call them in lock-step; a silent no-op for some role or pattern desynchronises the peers)"""
+    F = ctx.facts[cfg]
+    E = ctx.eff(cfg)
+    for ty in ("transportstate::TransportState", "stateless_transportstate::StatelessTransportState"):
+        for op in ("rekey_outgoing", "rekey_incoming"):
+            fn = F.one_fn("%s::%s" % (ty, op))
+            doing = set()
+            for bi, t in fn.calls():
+                tg, _ = E.targets(t)
+                names = [t["callee"].get("def") or ""] + list(tg)
+                if any(x.endswith("::rekey") or "::rekey_" in x for x in names):
+                    doing.add(bi)
+            rets = set(fn.return_blocks())
+            # a path that returns without rekeying is acceptable only for the direction that does not exist in a one-way
+            # session: rekey_outgoing on the one-way responder, rekey_incoming on the one-way initiator
+            dead_role = (op == "rekey_incoming")
+            G = ctx.guards(cfg, fn)
+
+            def role_fact(f, truth):
+                return f[0] == "bool" and f[2] is truth and f[1][0] == "place" and {fields_only(p[1]) for p in f[1][1]} == {("initiator",)}
+
+            def ow_fact(f):
+                return f[0] == "bool" and f[2] is True and f[1][0] == "call" and (f[1][1] or "").endswith("HandshakePattern::is_oneway")
+
+            skip = False
+            stack = [(0, frozenset(), frozenset())]
+            seen = set()
+            while stack and 0 not in doing:
+                b, facts, visited = stack.pop()
+                if (b, facts) in seen or b in doing or b in visited:
+                    continue
+                seen.add((b, facts))
+                if b in rets:
+                    if not (any(ow_fact(f) for f in facts) and any(role_fact(f, dead_role) for f in facts)):
+                        skip = True
+                        break
+                    continue
+                for x in fn.succs(b):
+                    ef = frozenset(f for f in G.edge_facts.get((b, x), ()) if f[0] == "bool")
+                    stack.append((x, facts | ef, visited | {b}))
+            ok = bool(doing) and not skip
+            ctx.ob("rekey-unconditional", "%s::%s" % (ty.split("::")[-1], op), ok,
+                   "every path through %s rekeys a cipher state" % op if ok else "%s can return without rekeying anything (a silent no-op for some role or pattern)" % op, where(fn), cfg)
 
 
 def manual(ctx, cfg):
